@@ -52,13 +52,16 @@ def is_sequence_type_restriction(st1: str, st2: str) -> bool:
 
     if not st1 or st1[0] == '{' or not st2 or st2[0] == '{':
         return False
-    elif st2 in ('empty-sequence()', 'none'):
-        return st1 in ('empty-sequence()', 'none') or st1.endswith(('?', '*'))
+
+    # The ending indicator of a typed function test belongs to its return type
+    occurs1 = st1[-1] if st1[-1] in '?+*' and ') as ' not in st1 else ''
+    occurs2 = st2[-1] if st2[-1] in '?+*' and ') as ' not in st2 else ''
+
+    if st2 in ('empty-sequence()', 'none'):
+        return st1 in ('empty-sequence()', 'none') or occurs1 in ('?', '*')
 
     # check occurrences: the cardinalities admitted by st2 have to be admitted by st1
     # (T? and T+ are not yet recognized as restrictions of T*)
-    occurs1 = st1[-1] if st1[-1] in '?+*' else ''
-    occurs2 = st2[-1] if st2[-1] in '?+*' else ''
     if occurs2 not in {'': ('',), '?': ('', '?'), '+': ('', '+'), '*': ('', '*')}[occurs1]:
         return False
     if occurs1:
